@@ -1,5 +1,6 @@
 import LyModel.XPath.LemmasParse
 import LyModel.XPath.LemmasLex
+import LyModel.XPath.LemmasLexRt
 /-!
 # C08 — libyang's XPath tokenizer and parser against XPath 1.0 §3
 
@@ -16,8 +17,31 @@ open LyModel.XPath.LemmasLex
 
 /-! ## Precedence and associativity: the parser inverts the canonical renderer -/
 
-/-- For EVERY expression of the engine's AST that has a text at all (`wf`) and nests no deeper than `LYXP_MAX_BLOCK_DEPTH`,
-the recursive descent of `reparse_*` run on the tokens of the canonical text returns exactly that expression.  The renderer
+/-- `parse (render e) = some e` for EVERY expression of the engine's AST that has a text at all (`wf`) and nests no deeper than
+`LYXP_MAX_BLOCK_DEPTH`: libyang's tokenizer followed by its recursive-descent parser, run on the canonical text of `e`
+(bytes), returns exactly `e`.  The canonical renderer (`Render.render`, fully specified there) puts parentheses only where
+the XPath 1.0 grammar needs them — left operand of an operator of level `q` at level `q`, right operand at level `q + 1`,
+levels `or` < `and` < `= !=` < `< <= > >=` < `+ -` < `* div mod` < unary `-` < `|` < path — so this pins the precedence and the
+(left) associativity of every operator, the function-call, predicate, filter and path syntax, and the lexical rules needed
+to read them (REC §3.7 on `*`, on operator names and on function / node-type names followed by `(`) to REC §3.1–3.7, for all
+expressions and not only for the ones a generator happens to produce. -/
+theorem parse_render_roundtrip (e : Expr) (hw : wf e = true) (hh : height e ≤ XpConsts.maxBlockDepth) :
+    parse (render e) = some e := by
+  obtain ⟨ps, hp⟩ := LemmasParse.parseToks_rtoks e hw hh
+  have hl := LemmasLexRt.lex_render e hw
+  unfold parse parseFull
+  cases h : lex (render e) with
+  | error er => simp [h, Except.toOption] at hl
+  | ok ts =>
+    have : ts.map ptOf = rtoks e := by simpa [h, Except.toOption] using hl
+    simp [this, hp]
+
+/-- the tokenizer half on its own: the kinds and texts of the tokens of the canonical text are the renderer's tokens -/
+theorem lex_render_tokens (e : Expr) (hw : wf e = true) :
+    (lex (render e)).toOption.map (·.map ptOf) = some (rtoks e) :=
+  LemmasLexRt.lex_render e hw
+
+/-- The parser half on its own: for every such expression the recursive descent of `reparse_*` run on the tokens of the canonical text returns exactly that expression.  The renderer
 (`Render.rtoks`) puts parentheses only where the XPath 1.0 grammar needs them — left operand of an operator of level `q` at
 level `q`, right operand at level `q + 1`, levels `or` < `and` < `= !=` < `< <= > >=` < `+ -` < `* div mod` < unary `-` < `|` <
 path — so this pins the precedence and the (left) associativity of every operator libyang's parser implements to REC §3.1–3.5,
@@ -32,6 +56,12 @@ private def sample : Expr :=
     (.fn "not" [.bin .union (.path .root [.mk .child (.name none [0x61]) [.bin .eq (.path .ctx [.mk .self .node []]) (.lit [0x78])]])
       (.path .ctx [.mk .child (.name none [0x62]) []])])
 example : wf sample = true ∧ height sample ≤ XpConsts.maxBlockDepth := by decide
+example : parse (render sample) = some sample := parse_render_roundtrip sample (by decide) (by decide)
+/-- its canonical text: `1 - 2 - 3 * 4 or not ( / child::a [ self::node ( ) = 'x' ] | child::b ) ` -/
+example : render sample =
+    [49, 32, 45, 32, 50, 32, 45, 32, 51, 32, 42, 32, 52, 32, 111, 114, 32, 110, 111, 116, 32, 40, 32, 47, 32, 99, 104, 105, 108, 100, 58, 58, 97, 32, 91, 32, 115, 101, 108, 102, 58, 58, 110, 111, 100, 101, 32, 40, 32, 41, 32, 61, 32, 39, 120, 39, 32, 93, 32, 124, 32, 99, 104, 105, 108, 100, 58, 58, 98, 32, 41, 32] := by
+  simp [render, detok, sample, rtoks, rargs, rsteps, rstep, rpreds, rtest, wrap, levelOf, opLevel, opTok, tokText, numText, quoteFor,
+    fnBytes, XpConsts.fnTable, axisBytes, Path.toDec, Path.toDecAux, tSlash, tDcolon, tPar1, tPar2, tBrack1, tBrack2]
 
 /-- the fuel `parseToks` runs `reparse_or_expr` with (`32 * tokens + 64`) is never the reason a canonical text is rejected:
 this is the previous theorem, stated for the fuel -/
